@@ -24,6 +24,7 @@ mod credit;
 mod e2e;
 mod failprop;
 mod frame;
+mod framebody;
 mod held;
 mod hostile;
 mod ids;
@@ -97,6 +98,7 @@ fn main() {
         "credit" => credit::main(&opts),
         "lsender" => lsender::main(&opts),
         "frame" => frame::main(&opts),
+        "framebody" => framebody::main(&opts),
         "recvcredit" => recvcredit::main(&opts),
         "reasm" => reasm::main(&opts),
         "ids" => ids::main(&opts),
